@@ -26,9 +26,9 @@ def run(ctx):
     repo_lib.model_check(ctx,
                          [(ctx.q("MC_Repo_quick", "MC_Repo"), ctx.q(6, 10), ctx.q(900, 3000))],
                          [("MC_Repo_neg_nonormalize", "InvC10")])
-    repo_lib.simulate(ctx, ctx.q(60, 1500))
-    repo_lib.record_and_judge(ctx, "C10", ctx.q(50, 1200), ctx.q(6, 8), is_mine, nontrivial)
-    repo_lib.replay(ctx, "C10", ctx.q(25, 800))
+    repo_lib.simulate(ctx, ctx.q(50, 600))
+    repo_lib.record_and_judge(ctx, "C10", ctx.q(50, 600), ctx.q(6, 8), is_mine, nontrivial)
+    repo_lib.replay(ctx, "C10", ctx.q(20, 300))
     ctx.cov["rule"] = ("evaluations = committed views of the real repository judged by TLC (I->S) + replayed model steps (S->I); "
                        "non-trivial = committed view with >= 2 heads, or with a bookmark and a working copy set; distinct by the "
                        "full event (new graph edges + view)")
